@@ -16,8 +16,13 @@
 EXTENDS JPSemantics
 
 IsB(c) == c \in {32, 9, 10, 13}
+\* Scanners advance in chunks of 64 positions: a recursion as deep as the run is long makes TLC quadratic in the length of
+\* the run (thousands of blanks, member names of thousands of characters).
+FirstOf(S) == CHOOSE j \in S : \A k \in S : j <= k
+ChunkEnd(p, i) == IF i + 63 <= Len(p) THEN i + 63 ELSE Len(p)
 RECURSIVE SkipS(_, _)
-SkipS(p, i) == IF i <= Len(p) /\ IsB(p[i]) THEN SkipS(p, i + 1) ELSE i
+SkipS(p, i) == IF i > Len(p) THEN i
+               ELSE LET stop == {j \in i..ChunkEnd(p, i) : ~IsB(p[j])} IN IF stop = {} THEN SkipS(p, ChunkEnd(p, i) + 1) ELSE FirstOf(stop)
 
 IsDigit(c) == c >= 48 /\ c <= 57
 IsAlphaC(c) == (c >= 65 /\ c <= 90) \/ (c >= 97 /\ c <= 122)
@@ -27,11 +32,14 @@ IsNameChar(c) == IsNameFirst(c) \/ IsDigit(c)
 IsFnChar(c) == IsLc(c) \/ c = 95 \/ IsDigit(c)
 
 RECURSIVE ScanDigits(_, _)
-ScanDigits(p, i) == IF i <= Len(p) /\ IsDigit(p[i]) THEN ScanDigits(p, i + 1) ELSE i
+ScanDigits(p, i) == IF i > Len(p) THEN i
+                    ELSE LET stop == {j \in i..ChunkEnd(p, i) : ~IsDigit(p[j])} IN IF stop = {} THEN ScanDigits(p, ChunkEnd(p, i) + 1) ELSE FirstOf(stop)
 RECURSIVE ScanName(_, _)
-ScanName(p, i) == IF i <= Len(p) /\ IsNameChar(p[i]) THEN ScanName(p, i + 1) ELSE i
+ScanName(p, i) == IF i > Len(p) THEN i
+                  ELSE LET stop == {j \in i..ChunkEnd(p, i) : ~IsNameChar(p[j])} IN IF stop = {} THEN ScanName(p, ChunkEnd(p, i) + 1) ELSE FirstOf(stop)
 RECURSIVE ScanFn(_, _)
-ScanFn(p, i) == IF i <= Len(p) /\ IsFnChar(p[i]) THEN ScanFn(p, i + 1) ELSE i
+ScanFn(p, i) == IF i > Len(p) THEN i
+                ELSE LET stop == {j \in i..ChunkEnd(p, i) : ~IsFnChar(p[j])} IN IF stop = {} THEN ScanFn(p, ChunkEnd(p, i) + 1) ELSE FirstOf(stop)
 
 StartsWith(p, i, w) == i + Len(w) - 1 <= Len(p) /\ SubSeq(p, i, i + Len(w) - 1) = w
 
@@ -66,11 +74,18 @@ Hex4At(p, i) == IF i + 3 <= Len(p) /\ \A k \in 0..3 : HexVal(p[i + k]) >= 0
 IsUnescaped(c) == (c >= 32 /\ c <= 33) \/ (c >= 35 /\ c <= 38) \/ (c >= 40 /\ c <= 91)
                   \/ (c >= 93 /\ c <= 55295) \/ (c >= 57344 /\ c <= 1114111)
 \* body of a string literal quoted with q, starting at i; result position is after the closing quote
+\* end of the run of characters that stand for themselves inside quotes q, from i on (chunked, see SkipS)
+IsPlainIn(c, q) == c # q /\ c # 92 /\ (IsUnescaped(c) \/ c \in {34, 39})
+RECURSIVE ScanPlain(_, _, _)
+ScanPlain(p, i, q) == IF i > Len(p) THEN i
+                      ELSE LET stop == {j \in i..ChunkEnd(p, i) : ~IsPlainIn(p[j], q)} IN IF stop = {} THEN ScanPlain(p, ChunkEnd(p, i) + 1, q) ELSE FirstOf(stop)
 RECURSIVE PStrBody(_, _, _, _)
 PStrBody(p, i, q, acc) ==
   LET c == At(p, i) IN
   IF c < 0 THEN [ok |-> FALSE, i |-> i, s |-> acc]
   ELSE IF c = q THEN [ok |-> TRUE, i |-> i + 1, s |-> acc]
+  ELSE IF IsPlainIn(c, q) /\ IsPlainIn(At(p, i + 1), q) THEN            \* a run of >= 2 plain characters is taken at once
+    LET j == ScanPlain(p, i, q) IN PStrBody(p, j, q, acc \o SubSeq(p, i, j - 1))
   ELSE IF c = 92 THEN
     LET e == At(p, i + 1) IN
     CASE e = q   -> PStrBody(p, i + 2, q, Append(acc, q))
@@ -97,6 +112,10 @@ PStrBody(p, i, q, acc) ==
 PStr(p, i) == IF At(p, i) \in {34, 39} THEN PStrBody(p, i + 1, p[i], <<>>) ELSE [ok |-> FALSE, i |-> i, s |-> <<>>]
 
 (* ---------- number literals -------------------------------------------------- *)
+RECURSIVE StripTrailCh(_)
+StripTrailCh(d) == IF Len(d) > 1 /\ d[Len(d)] = 48 THEN StripTrailCh(SubSeq(d, 1, Len(d) - 1)) ELSE d
+RECURSIVE StripLeadCh(_)
+StripLeadCh(d) == IF Len(d) > 1 /\ d[1] = 48 THEN StripLeadCh(Tail(d)) ELSE d
 \* number = (int / "-0") [frac] [exp];  value m * 10^e; sem = FALSE if beyond the modelled precision
 PNum(p, i) ==
   LET neg == At(p, i) = 45
@@ -114,11 +133,20 @@ PNum(p, i) ==
       ed == IF hasexp THEN SubSeq(p, es, ee - 1) ELSE <<>>
       expok == hasexp => ee > es
       ok == intok /\ fracok /\ expok
-      sem == Len(ip) <= 6 /\ Len(fp) <= 3 /\ Len(ed) <= 2
+      isfloat == hasfrac \/ hasexp
+      \* all mantissa digits without leading zeros; up to 8 of them fit the integer field, the rest goes to JNumX's digit string.
+      \* The exponent is kept to two digits (beyond e308 the literal is not a finite double).
+      all == StripLeadCh(ip \o fp)
+      \* at most 15 significant digits: there, and only there, different decimals are different doubles (the implementation
+      \* compares doubles, the specification decimals; with 16-17 digits two spellings may name one double)
+      sem == Len(ed) <= 2 /\ Len(StripTrailCh(all)) <= 15 /\ Len(all) <= 40 /\ (isfloat \/ Len(ip) <= 15)      \* integer literals stay below 2^53
       ev == IF hasexp THEN (IF At(p, k + 1) = 45 THEN 0 - DigitsVal(ed) ELSE DigitsVal(ed)) ELSE 0
-      m == DigitsVal(ip) * Pow10(Len(fp)) + DigitsVal(fp)
+      hi == SubSeq(all, 1, Min2(8, Len(all)))
+      lo == SubSeq(all, Len(hi) + 1, Len(all))
+      m == DigitsVal(hi)
   IN [ok |-> ok, i |-> ee, sem |-> sem,
-      v |-> IF ok /\ sem THEN JNum(IF neg THEN 0 - m ELSE m, ev - Len(fp), hasfrac \/ hasexp)
+      v |-> IF ok /\ sem THEN (IF lo = <<>> THEN JNum(IF neg THEN 0 - m ELSE m, ev - Len(fp), isfloat)
+                                ELSE JNumX(IF neg THEN 0 - m ELSE m, lo, ev - Len(fp), isfloat))
             ELSE [Blank EXCEPT !.t = "bignum"]]
 
 (* ---------- the mutually recursive part ---------------------------------------- *)
